@@ -27,8 +27,14 @@ RULE = ('interp (check): d in 1..3, axis lengths 1..6, uniform / non-uniform dya
         'point} on uniform (also nodes_on_bdry) and non-uniform grids with axis lengths 1..6; sampling_tensor: lists '
         'of callables/constants and tuple-valued callables through sampling_function with shaped out_dtype; resample '
         '(rcheck): Resampling(dom, ran, per-axis interp) of a sampled callable (with/without out=); deform: '
-        'linear_deform with displacement fields (point-array convention). Non-trivial = values not all equal; '
-        'distinct by the full input tuple.')
+        'linear_deform with displacement fields (point-array convention). Memory layout: in >= 2 dimensions (mostly '
+        'pairwise distinct axis lengths, non-symmetric data) the value array is C-ordered, Fortran-ordered, a '
+        'transposed view, a strided view or a negative-stride view, and Resampling / linear_deform get elements '
+        'created with order=C/F. history (scheck per step): ONE odl.util.vectorize-wrapped callable used 3-5 times '
+        'in a row -- direct call at an integer point (integer result), direct call at a float point, '
+        'space.element / mesh out= / point array on float64/float32 spaces, and a parametrised callable sampled '
+        'with real c, then c=a+bj on a complex space, then real again -- every step compared with point-wise '
+        'evaluation. Non-trivial = values not all equal; distinct by the full input tuple.')
 ASSUMPTIONS = [
     'exact arithmetic: coordinates/values are small integers or dyadic rationals so float operations are exact '
     '(non-dyadic spacings compared with tolerance 1e-12 and without tie points); rounding, overflow, NaN inputs are '
@@ -617,6 +623,157 @@ def tensor_sampling_cases(rng, tier):
     return cs
 
 
+# ---- call histories on ONE wrapped callable (state kept by the vectorisation wrapper)
+def gen_ex_int(rng, d, depth):
+    """Integer-valued on integer points: coordinates, integer constants, + - *, step."""
+    if depth == 0 or rng.random() < 0.25:
+        if rng.random() < 0.75:
+            return Ex('coord', rng.randrange(d))
+        return Ex('const', float(rng.randint(-3, 3)))
+    op = rng.choice(['add', 'sub', 'mul', 'add', 'step'])
+    if op == 'step':
+        return Ex('step', rng.randrange(d), rng.randint(-2, 6) * 0.5, gen_ex_int(rng, d, depth - 1),
+                  gen_ex_int(rng, d, depth - 1))
+    return Ex(op, gen_ex_int(rng, d, depth - 1), gen_ex_int(rng, d, depth - 1))
+
+
+def int_src(ex, xname='x'):
+    """Scalar Python source with integral constants written as int literals (so that the callable returns
+    a Python int at integer points and a float elsewhere)."""
+    import re
+    return re.sub(r'(?<![\w.])(-?\d+)\.0(?![\d])', r'\1', ex.src(False, xname))
+
+
+HISTORY_SRC = '''
+def run_history(f, steps):
+    """Evaluate ONE callable f through a sequence of calls; returns the list of results (flat complex lists).
+    steps: ('point', coords) direct call of f at one point | ('sample', space, mode, kwargs) sampling on a space."""
+    import numpy as np
+    res = []
+    for st in steps:
+        if st[0] == 'point':
+            p = st[1]
+            r = f(p[0] if len(p) == 1 else list(p), **st[2])
+            res.append([complex(v) for v in np.asarray(r).ravel()])
+        else:
+            _, space, mode, kw = st
+            if mode == 'element':
+                a = space.element(f, **kw).asarray()
+            else:
+                from odl.discr.discr_utils import sampling_function, point_collocation
+                func = sampling_function(f, space.domain, out_dtype=space.dtype)
+                if mode == 'mesh-out':
+                    a = np.full(space.shape, np.nan, dtype=space.dtype)
+                    point_collocation(func, space.meshgrid, out=a, **kw)
+                else:
+                    a = np.asarray(func(space.points().T, **kw)).reshape(space.shape)
+            res.append([complex(v) for v in np.asarray(a).ravel()])
+    return res
+'''
+exec(HISTORY_SRC)
+
+
+def gen_history(rng, d):
+    """Source text defining the wrapped callable `f`, the spaces and `steps`; plus, per step, the data the
+    Coq check needs (grid, expressions for real and imaginary part)."""
+    variant = rng.choice(['int-first', 'int-first', 'param'])
+    lines = ['import numpy as np, odl, warnings', 'warnings.simplefilter("ignore")']
+    coq = []                                  # (cvs, ex_re, ex_im, cplx)
+    zero = Ex('const', 0.0)
+    if variant == 'int-first':
+        ex = gen_ex_int(rng, d, rng.choice([1, 2, 3]))
+        if not ex.coords():
+            ex = Ex('add', ex, Ex('coord', 0))
+        # `x[0] * 0 +` makes the result an int at integer points and a float at every float point, so that no
+        # single call mixes int and float results (that case is the recorded finding
+        # vectorize-int-first-result-truncates, a property of np.vectorize's dtype inference, probed separately)
+        lines.append('@odl.util.vectorize\ndef f(x):\n    return x[0] * 0 + (%s)' % int_src(ex))
+        steps = []
+        nspace = 0
+        plan = ['point-int'] + [rng.choice(['sample', 'sample', 'point-float', 'point-int'])
+                                for _ in range(rng.randint(1, 3))] + ['sample']
+        if rng.random() < 0.3:
+            plan = ['sample', 'point-int', 'sample']          # float first, then an integer point, then float again
+        for what in plan:
+            if what.startswith('point'):
+                p = [float(rng.randint(0, 3)) for _ in range(d)] if what == 'point-int' else \
+                    [rng.randint(0, 12) * 0.25 + 0.125 for _ in range(d)]
+                arg = [int(v) for v in p] if what == 'point-int' else p
+                steps.append("('point', %r, {})" % (arg,))
+                coq.append(([[v] for v in p], ex, zero, False))
+            else:
+                dtype = rng.choice(['float64', 'float64', 'float32'])
+                sp, spsrc = make_space(rng, d, dtype)
+                name = 'space%d' % nspace
+                nspace += 1
+                lines.append(spsrc.replace('space = ', '%s = ' % name).replace('space.', '%s.' % name))
+                steps.append("('sample', %s, %r, {})" % (name, rng.choice(['element', 'element', 'mesh-out', 'array'])))
+                coq.append(([c.tolist() for c in sp.grid.coord_vectors], ex, zero, False))
+    else:
+        ex = gen_ex(rng, d, rng.choice([1, 2]), None)
+        if not ex.coords():
+            ex = Ex('add', ex, Ex('coord', 0))
+        lines.append('@odl.util.vectorize\ndef f(x, c=1.0):\n    return (%s) * c' % ex.src(False))
+        steps = []
+        plan = ['real', 'complex', 'real'] if rng.random() < 0.6 else ['complex', 'real', 'complex']
+        for i, what in enumerate(plan):
+            dtype = 'complex128' if what == 'complex' else rng.choice(['float64', 'float32'])
+            sp, spsrc = make_space(rng, d, dtype)
+            name = 'space%d' % i
+            lines.append(spsrc.replace('space = ', '%s = ' % name).replace('space.', '%s.' % name))
+            if what == 'complex':
+                a, b = float(rng.randint(-2, 2)), float(rng.choice([-2, -1, 1, 2]))
+                kw = '{"c": complex(%r, %r)}' % (a, b)
+            else:
+                a, b = rng.choice([1.0, 2.0, 0.5, -1.0]), 0.0
+                kw = '{}' if a == 1.0 else '{"c": %r}' % a
+            steps.append("('sample', %s, %r, %s)" % (name, rng.choice(['element', 'element', 'mesh-out', 'array']), kw))
+            coq.append(([c.tolist() for c in sp.grid.coord_vectors], Ex('mul', ex, Ex('const', a)),
+                        Ex('mul', ex, Ex('const', b)), what == 'complex'))
+    lines.append('steps = [%s]' % ', '.join(steps))
+    return variant, '\n'.join(lines) + '\n', coq
+
+
+def history_cases(rng, tier):
+    """The same wrapped callable used several times: every result must be the callable's values, whatever
+    was evaluated before (one scase per step)."""
+    cs = C.CaseSet('history', ['C15.Syntax', 'C15.Model', 'C15.Call', 'C15.Corr'], 'scheck', 'scase')
+    n_hist = 40 if tier == 'quick' else 300
+    for it in range(n_hist):
+        d = rng.choice([1, 2, 2, 3])
+        variant, src, coq = gen_history(rng, d)
+        env = {}
+        err = None
+        with warnings.catch_warnings():
+            warnings.simplefilter('ignore')
+            try:
+                exec(src, env)
+                results = run_history(env['f'], env['steps'])
+            except Exception as e:
+                results, err = [[] for _ in coq], '%s: %s' % (type(e).__name__, str(e)[:200])
+        for k, ((cvs, ex_re, ex_im, cplx), vals) in enumerate(zip(coq, results)):
+            term = ('{| s_cvs := %s; s_re := %s; s_im := %s; s_cplx := %s; s_out_re := %s; s_out_im := %s |}'
+                    % (C.qss(cvs), ex_re.coq(), ex_im.coq(), C.b(cplx), C.qs([v.real for v in vals]),
+                       C.qs([v.imag for v in vals]) if cplx else '[]'))
+            desc = {'family': 'history', 'variant': variant, 'step': k, 'source': src, 'error': err,
+                    'scalar_re': ex_re.src(False, 'p'), 'scalar_im': ex_im.src(False, 'p'),
+                    'replay': _history_snippet(src, coq) if k == 0 else None, 'first': len(cs.cases) - k}
+            cs.add(term, desc, ('history', src, k) if len(set(vals)) > 1 or len(vals) == 1 else None)
+    return cs
+
+
+def _history_snippet(src, coq):
+    """Self-contained replay: run the history, compare every step with a plain Python loop over the points."""
+    exp = []
+    for cvs, ex_re, ex_im, cplx in coq:
+        exp.append('[complex(%s, %s) for p in itertools.product(*%r)]'
+                   % (ex_re.src(False, 'p'), ex_im.src(False, 'p') if cplx else '0.0', cvs))
+    return ('import itertools\n' + HISTORY_SRC + src + 'observed = run_history(f, steps)\n'
+            'expected = [%s]\n' % ',\n            '.join(exp) +
+            'ok = len(observed) == len(expected) and all(len(a) == len(b) and all(abs(u - v) <= 1e-6 * (1 + abs(v)) '
+            'for u, v in zip(a, b)) for a, b in zip(observed, expected))\n')
+
+
 def resample_cases(rng, tier, variants):
     """Resampling(domain, range, interp)(domain.element(callable)) and linear_deform."""
     import odl
@@ -702,8 +859,8 @@ def resample_cases(rng, tier, variants):
 
 def correspondence(rng, tier):
     variants = measure_variants()
-    return ([interp_cases(rng, tier, variants), sampling_cases(rng, tier), tensor_sampling_cases(rng, tier)]
-            + resample_cases(rng, tier, variants))
+    return ([interp_cases(rng, tier, variants), sampling_cases(rng, tier), tensor_sampling_cases(rng, tier),
+             history_cases(rng, tier)] + resample_cases(rng, tier, variants))
 
 
 # ------------------------------------------------------------------- probes
@@ -1013,6 +1170,22 @@ def probes(rng, tier):
     _probe(out, 'vectorize-direct-call', 'odl.util.vectorize-wrapped functions called with a scalar, a 1-d array, '
            'a (d, N) array and out= give the point-wise values', snip)
 
+    # ---- 6c. call histories on one vectorize-wrapped callable: earlier calls must not influence later ones
+    for _ in range(6 * reps):
+        d = rng.choice([1, 2, 2, 3])
+        variant, src, coq = gen_history(rng, d)
+        _probe(out, 'vectorize-history-%s' % variant,
+               'one odl.util.vectorize-wrapped callable used %d times in a row (%s): every result equals the '
+               'callable evaluated point by point' % (len(coq), variant), _history_snippet(src, coq))
+
+    # ---- 6d. a callable returning a Python int at the first grid point and floats elsewhere
+    snip = ('import numpy as np, odl\n'
+            '@odl.util.vectorize\ndef f(x):\n    return 0 if x[0] < 0.5 else x[0]\n'
+            'space = odl.uniform_discr(0, 1, 4)\nobserved = space.element(f).asarray().tolist()\n'
+            'expected = [float(0 if p < 0.5 else p) for p in space.points().ravel()]\nok = observed == expected\n')
+    _probe(out, 'vectorize-int-first-result-truncates',
+           'space.element of a vectorize-wrapped callable whose first grid value is a Python int', snip)
+
     # ---- 7. vector-valued callables through sampling_function (shaped out_dtype)
     for form, body in (('tuple-mixed', '(x[0] + 0.0 * x[1], 2.0, x[0] * x[1])'),
                        ('tuple-equal-partial', '(x[1], 2.0 * x[1], x[1] + 1.0)')):
@@ -1095,6 +1268,15 @@ def search(rng, broken):
         if desc.get('family') == 'sampling':
             snip = _sampling_snippet(desc)
             key = 'sampling-%s-%s-%s' % (desc['flavour'], desc['dtype'], desc['mode'])
+        elif desc.get('family') == 'history':
+            snip = desc.get('replay')
+            if snip is None:          # stored with the first step of the same history
+                for kind2, what2, desc2 in broken:
+                    if isinstance(desc2, dict) and desc2.get('source') == desc['source'] and desc2.get('replay'):
+                        snip = desc2['replay']
+            if snip is None:
+                snip = HISTORY_SRC + desc['source'] + 'observed = run_history(f, steps)\nok = False\n'
+            key = 'vectorize-history-%s' % desc['variant']
         elif desc.get('family') == 'resample':
             snip = _resample_snippet(desc)
             key = 'resampling-textbook'
